@@ -83,6 +83,60 @@ Definition set_tracing (t : option prof) (s : St) : St :=
 Definition set_next_prof (n : Z) (s : St) : St :=
   mkSt (argv s) (path s) (gp s) (builtin s) (timers s) (tracing s) n.
 
+(* ---- the RepeatedTimer behind -i N (kernprof.py 147-179) --------------------------------------
+   __init__ calls start(); start() arms a threading.Timer unless is_running; the timer thread
+   runs _run(): `is_running = False; start(); dump_func(outfile)` - it re-arms BEFORE dumping;
+   stop() cancels the Timer object `_timer` refers to (a no-op on one that has fired) and clears
+   is_running.  The dump takes time, so stop() in the main thread can fall into it. *)
+Inductive tevent :=
+| Fire          (* the armed timer expires: its thread enters _run *)
+| DumpDone      (* one dump in progress returns: that thread leaves _run *)
+| Stop.         (* rt.stop() in the main thread *)
+Inductive tstatus := Armed | Fired | Cancelled.
+
+Record RT := mkRT {
+  rt_running : bool;        (* self.is_running *)
+  rt_cur : tstatus;         (* the Timer object self._timer refers to *)
+  rt_orphans : nat;         (* armed Timer objects nothing refers to any more *)
+  rt_dumping : nat          (* threads inside dump_func *)
+}.
+
+Definition rt_start (t : RT) : RT :=
+  if rt_running t then t
+  else mkRT true Armed (rt_orphans t + match rt_cur t with Armed => 1 | _ => 0 end) (rt_dumping t).
+
+(* [rearm_first]: _run calls start() before dump_func (true: the tree as it is) or after it *)
+Definition rt_step (rearm_first : bool) (t : RT) (e : tevent) : RT :=
+  match e with
+  | Fire =>
+      match rt_cur t with
+      | Armed => let t1 := mkRT false Fired (rt_orphans t) (S (rt_dumping t)) in
+                 if rearm_first then rt_start t1 else t1
+      | _ => t                                           (* nothing armed: nothing can expire *)
+      end
+  | DumpDone =>
+      match rt_dumping t with
+      | O => t
+      | S n => let t1 := mkRT (rt_running t) (rt_cur t) (rt_orphans t) n in
+               if rearm_first then t1 else rt_start t1
+      end
+  | Stop => mkRT false (match rt_cur t with Armed => Cancelled | c => c end) (rt_orphans t) (rt_dumping t)
+  end.
+
+Definition rt_init : RT := mkRT true Armed 0 0.           (* RepeatedTimer(...): __init__ -> start() *)
+Definition rt_exec (rearm_first : bool) (t : RT) (es : list tevent) : RT := fold_left (rt_step rearm_first) es t.
+Definition rt_armed (t : RT) : nat := match rt_cur t with Armed => 1 | _ => 0 end + rt_orphans t.
+Definition rt_threads (t : RT) : nat := rt_armed t + rt_dumping t.
+
+(* helper threads that remain once rt.stop() has been called after the schedule [es] and the
+   dumps then in progress have returned *)
+Definition rt_leftover (rearm_first : bool) (es : list tevent) : nat :=
+  let t := rt_exec rearm_first rt_init (es ++ [Stop]) in
+  rt_threads (rt_exec rearm_first t (repeat DumpDone (rt_dumping t))).
+
+(* the order in the current tree *)
+Definition rearm_before_dump : bool := true.
+
 (* ---- inputs of one run ---------------------------------------------------------------- *)
 Inductive outcome := Return | SysExit | KbdInt | Exc.     (* how the profiled program ends *)
 Inductive result := Returned | Raised.                    (* how kernprof.main ends *)
@@ -91,8 +145,10 @@ Record Prog := mkProg {
   p_outcome : outcome;
   p_touch_path : bool;     (* the program does sys.path.append("/prog-added") *)
   p_touch_argv : bool;     (* the program does sys.argv.append("prog-added") *)
-  p_uses_builtin : bool    (* the program decorates with the builtin `profile` whenever one exists
+  p_uses_builtin : bool;   (* the program decorates with the builtin `profile` whenever one exists
                               (`try: profile / except NameError: profile = lambda f: f`) *)
+  p_sched : list tevent    (* -i N: what the periodic-dump timer does while the program runs
+                              (expiries and dump completions, in any interleaving) *)
 }.
 
 Record Opts := mkOpts {
@@ -155,8 +211,9 @@ Definition main_body (cfg : Fixes) (o : Opts) (p : Prog) (s : St) : result * St 
   let s := upd_argv (fun c => if p_touch_argv p then append_cur "prog-added" c else c) s in
   let s := set_tracing found_tracing s in
   (* 531-532: except (KeyboardInterrupt, SystemExit): pass     533: finally: *)
-  (* 534-535: rt.stop() *)
-  let s := set_timers (timers s - (if timed then 1 else 0)) s in
+  (* 534-535: rt.stop(); what is left of that timer once its dumps in progress have returned *)
+  let s := set_timers (timers s - (if timed then 1 else 0)
+                       + (if timed then Z.of_nat (rt_leftover rearm_before_dump (p_sched p)) else 0)) s in
   (* 556-558: the decorator state is handed back (install_profiler(None) before 2d3e878) *)
   let s := set_gp (if fx_profile cfg
                    then set_enabled (f_enabled found) (set_profile (f_profile found) (gp s))
@@ -191,6 +248,28 @@ Fixpoint exec_runs (cfg : Fixes) (s : St) (rs : list run) : St :=
   | (o, p) :: t => exec_runs cfg (snd (main cfg o p s)) t
   end.
 
+(* ---- runs interleaved with ordinary use of the decorator ---------------------------------------- *)
+Inductive act :=
+| ARun (o : Opts) (p : Prog)      (* kernprof.main([...]) *)
+| AEnable                         (* line_profiler.profile.enable() *)
+| ADisable                        (* line_profiler.profile.disable() *)
+| ADecorate.                      (* line_profiler.profile(f) *)
+
+(* ordinary use acts on the decorator only, through the translated methods, in the world of the
+   moment (no LINE_PROFILE, the current sys.argv); a call that raises leaves the object as it was *)
+Definition do_user (a : act) (s : St) : St :=
+  match a with
+  | AEnable => match enable (gp s) None with Ok (_, g) => set_gp g s | Err _ => s end
+  | ADisable => match disable (gp s) with Ok (_, g) => set_gp g s | Err _ => s end
+  | ADecorate => match decorate (gp s) (fun _ => None) (heap_ (argv s) (ref (argv s))) (Fn 0) with
+                 | Ok (_, g) => set_gp g s | Err _ => s end
+  | ARun _ _ => s
+  end.
+Definition do_act (cfg : Fixes) (s : St) (a : act) : St :=
+  match a with ARun o p => snd (main cfg o p s) | _ => do_user a s end.
+Definition exec_acts (cfg : Fixes) (s : St) (acts : list act) : St := fold_left (do_act cfg) acts s.
+Definition is_user (a : act) : bool := match a with ARun _ _ => false | _ => true end.
+
 (* ---- what can be observed, and the property ------------------------------------------- *)
 (* ordinary use of the decorator afterwards: profile(f) raises iff this is false
    (world-independent, see [usable_spec] in Cli/MainEffectsProofs.v) *)
@@ -208,8 +287,9 @@ Definition strs_eqb := list_eqb String.eqb.
 (* the five clauses of C19, about the state before the run(s) and after *)
 Definition argv_ok (b a : St) : bool := strs_eqb (cur (argv b)) (cur (argv a)).
 Definition path_ok (b a : St) : bool := strs_eqb (cur (path b)) (cur (path a)).
-(* "usable and back to deciding for itself": as found, or undecided *)
-Definition profile_ok (b a : St) : bool := usable (gp a) && (same_decision (gp b) (gp a) || undecided (gp a)).
+(* "usable and back to deciding for itself": usable, with the decision and the profiler it was
+   found with (undecided if it was undecided; a user's explicit enable() / disable() is kept) *)
+Definition profile_ok (b a : St) : bool := usable (gp a) && same_decision (gp b) (gp a).
 Definition tracing_ok (b a : St) : bool := opt_eqb prof_eqb (tracing b) (tracing a).
 Definition timers_ok (b a : St) : bool := Z.eqb (timers b) (timers a).
 
@@ -219,6 +299,11 @@ Definition restored (b a : St) : bool :=
 (* the full statement of C19 for a given behaviour of main *)
 Definition C19_statement (cfg : Fixes) : Prop :=
   forall (s : St) (rs : list run), usable (gp s) = true -> restored s (exec_runs cfg s rs) = true.
+
+(* two interpreter states nobody can tell apart through the five clauses *)
+Definition veq (a b : St) : Prop :=
+  cur (argv a) = cur (argv b) /\ cur (path a) = cur (path b) /\ gp a = gp b
+  /\ tracing a = tracing b /\ timers a = timers b.
 
 (* ---- a concrete interpreter, for witnesses and for the case shards -------------------- *)
 Definition mk_cell (contents : list string) (rebound : bool) : cell :=
@@ -233,5 +318,5 @@ Definition mk_state (argv0 : list string) (argv_rebound : bool) (path0 : list st
 
 Definition st0 : St := mk_state ["driver"] false ["/lib"] false gp_init 0.
 Definition opts0 : Opts := mkOpts true false false None 0 ["prog.py"; "a"] "" "/T".
-Definition returns : Prog := mkProg Return false false true.
-Definition raises : Prog := mkProg Exc false false true.
+Definition returns : Prog := mkProg Return false false true [].
+Definition raises : Prog := mkProg Exc false false true [Fire].
